@@ -17,17 +17,35 @@ const MON: &str = "bus_noninterference";
 pub struct Pop {
     pub addrs: Vec<u16>,
     pub autos: Vec<bool>,
+    /// What each sign went through ON ITS OWN before the bus was made of it (empty = all fresh): a bus is built from signs
+    /// that exist already, and a sign may have been driven directly before (`VirtualSign::process_message` is public).
+    /// 0 fresh, 1 configuration requested, 2 + one block delivered, 3 + count (configuration complete),
+    /// 4 + pixels requested, 5 + one chunk delivered.
+    pub pre: Vec<u8>,
+}
+
+/// The messages behind a `pre` code, for the sign at `a`.
+pub fn pre_msgs(a: u16, code: u8) -> Vec<RefMsg> {
+    let all = [
+        RefMsg::Request(a, 0),
+        RefMsg::Data { offset: 0, data: vsx::TINY1.to_vec() },
+        RefMsg::Count(1),
+        RefMsg::Request(a, 1),
+        RefMsg::Data { offset: 0, data: vsx::page_chunk(7, 0x5A) },
+    ];
+    all[..usize::from(code).min(all.len())].to_vec()
 }
 
 impl Pop {
     fn show(&self) -> String {
-        self.addrs.iter().zip(&self.autos).map(|(a, au)| format!("{:04X}{}", a, if *au { "a" } else { "m" })).collect::<Vec<_>>().join(",")
+        self.addrs.iter().zip(&self.autos).enumerate().map(|(i, (a, au))| format!("{:04X}{}{}", a, if *au { "a" } else { "m" }, self.pre.get(i).filter(|c| **c != 0).map(|c| c.to_string()).unwrap_or_default())).collect::<Vec<_>>().join(",")
     }
     fn parse(s: &str) -> Option<Pop> {
-        let mut p = Pop { addrs: vec![], autos: vec![] };
+        let mut p = Pop { addrs: vec![], autos: vec![], pre: vec![] };
         for part in s.split(',') {
             p.addrs.push(u16::from_str_radix(part.get(0..4)?, 16).ok()?);
-            p.autos.push(part.ends_with('a'));
+            p.autos.push(part.get(4..5)? == "a");
+            p.pre.push(part.get(5..6).and_then(|c| c.parse().ok()).unwrap_or(0));
         }
         Some(p)
     }
@@ -52,11 +70,32 @@ pub struct World {
 
 impl World {
     pub fn new(pop: &Pop) -> World {
+        // every sign (the one that goes into the bus and its two copies alike) first lives through its own past, alone
+        let used = |i: usize, a: u16, au: bool| -> VirtualSign<'static> {
+            let mut s = mk_sign(a, au);
+            for m in pre_msgs(a, pop.pre.get(i).copied().unwrap_or(0)) {
+                let _ = s.process_message(&refs::from_ref(&m));
+            }
+            s
+        };
+        let signs: Vec<VirtualSign<'static>> = pop.addrs.iter().zip(&pop.autos).enumerate().map(|(i, (a, au))| used(i, *a, *au)).collect();
         World {
-            bus: VirtualSignBus::new(pop.addrs.iter().zip(&pop.autos).map(|(a, au)| mk_sign(*a, *au))),
-            shadows: pop.addrs.iter().zip(&pop.autos).map(|(a, au)| mk_sign(*a, *au)).collect(),
-            quiet: pop.addrs.iter().zip(&pop.autos).map(|(a, au)| mk_sign(*a, *au)).collect(),
-            guides: pop.addrs.iter().zip(&pop.autos).map(|(a, au)| RefSign::new(*a, *au)).collect(),
+            bus: VirtualSignBus::new(signs),
+            shadows: pop.addrs.iter().zip(&pop.autos).enumerate().map(|(i, (a, au))| used(i, *a, *au)).collect(),
+            quiet: pop.addrs.iter().zip(&pop.autos).enumerate().map(|(i, (a, au))| used(i, *a, *au)).collect(),
+            guides: pop
+                .addrs
+                .iter()
+                .zip(&pop.autos)
+                .enumerate()
+                .map(|(i, (a, au))| {
+                    let mut g = RefSign::new(*a, *au);
+                    for m in pre_msgs(*a, pop.pre.get(i).copied().unwrap_or(0)) {
+                        g.step(&m);
+                    }
+                    g
+                })
+                .collect(),
             pop: pop.clone(),
         }
     }
@@ -259,7 +298,11 @@ fn random_pop(rng: &mut Rng) -> Pop {
             addrs.push(a);
         }
     }
-    Pop { autos: (0..n).map(|_| rng.bool()).collect(), addrs }
+    {
+        // one bus in three is made of signs with a past of their own
+        let pre: Vec<u8> = if rng.chance(1, 3) { (0..n).map(|_| rng.below(6) as u8).collect() } else { vec![] };
+        Pop { autos: (0..n).map(|_| rng.bool()).collect(), addrs, pre }
+    }
 }
 
 fn absent_addr(rng: &mut Rng, pop: &Pop) -> u16 {
@@ -285,7 +328,7 @@ fn absent_addr(rng: &mut Rng, pop: &Pop) -> u16 {
 /// Sign A receives k chunks in one transfer while sign B sits idle in a settled state; then B gets an ordinary
 /// transfer. k runs over the values around 2^8 and 2^16 where a private tally kept by the idle sign would wrap.
 fn neighbour_traffic(rep: &mut Report) {
-    let pop = Pop { addrs: vec![3, 6], autos: vec![false, true] };
+    let pop = Pop { addrs: vec![3, 6], autos: vec![false, true], pre: vec![] };
     for k in [254usize, 255, 256, 257, 65_530, 65_533, 65_534, 65_535, 65_536, 65_537, 65_540] {
         for b_ready in [false, true] {
             let mut history: Vec<RefMsg> = vec![];
@@ -343,6 +386,12 @@ fn history_of_length(rng: &mut Rng, len: usize, rep: &mut Report) {
     let mut history: Vec<RefMsg> = Vec::with_capacity(len);
     rep.case(Some(rng.next()));
     rep.seen("population_sizes", n as u64);
+    if pop.pre.iter().any(|c| *c != 0) {
+        rep.count("buses_made_of_used_signs");
+        for c in &pop.pre {
+            rep.seen("solo_pasts", u64::from(*c));
+        }
+    }
     // bias: keep several signs mid-transfer at once by round-robin "advancing" moves
     for step in 0..len {
         let k = if rng.chance(1, 3) { step % n } else { rng.usize(n) };
@@ -369,7 +418,7 @@ fn history_of_length(rng: &mut Rng, len: usize, rep: &mut Report) {
 
 /// Exhaustive breadth-first exploration of a 2-sign bus with a narrow alphabet and tiny bounds.
 fn explore_two_signs(auto0: bool, auto1: bool, rep: &mut Report) {
-    let pop = Pop { addrs: vec![3, 0x80], autos: vec![auto0, auto1] };
+    let pop = Pop { addrs: vec![3, 0x80], autos: vec![auto0, auto1], pre: vec![] };
     let absent = 0x0042u16;
     struct N {
         w: World,
@@ -450,7 +499,7 @@ pub fn run(ctx: &Ctx) -> Outcome {
             }
             if shard - nb == 4 {
                 // the documentation's own example: a bus with a sign at every address 2..=126 (and a few beyond)
-                let pop = Pop { addrs: (2..=140u16).collect(), autos: (2..=140u16).map(|a| a % 3 == 0).collect() };
+                let pop = Pop { addrs: (2..=140u16).collect(), autos: (2..=140u16).map(|a| a % 3 == 0).collect(), pre: (2..=140u16).map(|a| (a % 7) as u8 % 6).collect() };
                 let mut w = World::new(&pop);
                 let mut history = vec![];
                 for step in 0..600usize {
@@ -486,6 +535,7 @@ pub fn run(ctx: &Ctx) -> Outcome {
         floor("a bus with a sign at every address 2..=140", report.get("big_bus_histories") == 1, report.get("big_bus_histories")),
         floor("neighbour traffic of 254..65540 chunks past an idle sign, then that sign's own transfer", report.get("neighbour_traffic_histories") == 22, report.get("neighbour_traffic_histories")),
         floor("three histories of 100 000 messages on one bus", report.get("long_histories") == 3, report.get("long_histories")),
+        floor("buses made of signs with a past of their own (driven directly before the bus existed: mid-configuration, configured, mid-transfer)", report.get("buses_made_of_used_signs") > 100 && report.set_len("solo_pasts") == 6, report.get("buses_made_of_used_signs")),
         floor("populations of 1..4 signs", report.set_len("population_sizes") == 4, report.set_len("population_sizes")),
         floor("unaddressed data and ignored kinds delivered", report.get("delivered/unaddressed_data") > 0 && report.get("delivered/ignored_kinds") > 0, report.get("delivered/ignored_kinds")),
     ];
